@@ -1,0 +1,28 @@
+// Copyright © 2024 Attestant Limited.
+// Licensed under the Apache License, Version 2.0 (the "License");
+// you may not use this file except in compliance with the License.
+// You may obtain a copy of the License at
+//
+//     http://www.apache.org/licenses/LICENSE-2.0
+//
+// Unless required by applicable law or agreed to in writing, software
+// distributed under the License is distributed on an "AS IS" BASIS,
+// WITHOUT WARRANTIES OR CONDITIONS OF ANY KIND, either express or implied.
+// See the License for the specific language governing permissions and
+// limitations under the License.
+
+//go:build verif
+
+package dirk
+
+import (
+	e2wtypes "github.com/wealdtech/go-eth2-wallet-types/v2"
+)
+
+// VerifSetWallet registers an already-open wallet under the given name, so that a refresh uses it rather than
+// opening a connection to a Dirk server.  For external runtime monitors only.
+func (s *Service) VerifSetWallet(name string, wallet e2wtypes.Wallet) {
+	s.walletsMutex.Lock()
+	s.wallets[name] = wallet
+	s.walletsMutex.Unlock()
+}
